@@ -105,8 +105,8 @@ res = {}
 def origin(tb):
     fr = traceback.extract_tb(tb)
     for f in reversed(fr):
-        if os.path.realpath(f.filename).startswith(outdir):
-            return os.path.basename(f.filename), f.lineno
+        if os.path.realpath(f.filename).startswith(outdir + os.sep):
+            return os.path.relpath(os.path.realpath(f.filename), outdir), f.lineno
     return ((os.path.basename(fr[-1].filename), fr[-1].lineno) if fr else ("", 0))
 
 
@@ -1392,7 +1392,7 @@ def py_prepare(outdir: str, outputs: Dict[str, List[str]], files: List[Dict[str,
                 if not os.path.exists(init):
                     open(init, "w").close()
             shutil.copyfile(os.path.join(outdir, pys[0]), os.path.join(d, parts[-1] + ".py"))
-            copies[parts[-1] + ".py"] = f["fname"]
+            copies[os.path.join(*parts) + ".py"] = f["fname"]
     return copies
 
 
